@@ -17,7 +17,7 @@ def step (d : DState) (ws : List String) : DState × String :=
   | ["c", x] => feed d (.create x) x
   | ["s", x] => feed d (.spend x) x
   | ["t", x] => feed d (.trim x) x
-  | ["end"] => (d, s!"size={d.l.size} consistent={if consistentOn d.l d.seen then 1 else 0} wf={if d.wf then 1 else 0}")
+  | ["end"] => (d, s!"size={d.l.size % 18446744073709551616} consistent={if consistentOn d.l d.seen then 1 else 0} wf={if d.wf then 1 else 0}")
   | _ => (d, "bad-op")
 
 end QuaiVerif.Ledger
